@@ -379,6 +379,11 @@ func c03RealTime(c *fw.Ctx, idx int) {
 	fw.LogCase("C03 real-time scenario %d", idx)
 	cl := kit.NewCluster(kit.WorkDir("c03rt"))
 	defer cl.Close()
+	// the broker's sweep ticker starts with the node: start nodes at different phases of the wall-clock
+	// second (0.1, 0.3, 0.55, 0.8, ...) so that ticks fall before and after the deadlines' fractions
+	target := []int{100, 300, 550, 800}[idx%4] * int(time.Millisecond)
+	wait := (target - time.Now().Nanosecond() + int(time.Second)) % int(time.Second)
+	time.Sleep(time.Duration(wait))
 	n, err := cl.AddNode(kit.NodeOpts{ID: 1})
 	if err != nil {
 		c.Inconclusive("cannot start node: " + err.Error())
